@@ -148,6 +148,29 @@ func cancelExtract(c *Ctx) {
 	}
 	c.Fact("cancel.stateless_propagation", prop)
 
+	// ---- the compatibility branch MCPGODEBUG=blockingcancelnotify=1 and cancelCall: the statements, in order (the
+	// notice is written on a context that keeps the values of the call's and has its own timeout, THEN the call is
+	// retired; the caller returns the context's error joined with the notifier's)
+	var blocking, ccBody []string
+	if fd := c.Func("mcp", "", "call"); fd != nil && fd.Body != nil {
+		ast.Inspect(fd.Body, func(n ast.Node) bool {
+			if x, ok := n.(*ast.IfStmt); ok && norm(c.Src(x.Cond)) == `blockingcancelnotify == "1"` {
+				for _, st := range x.Body.List {
+					blocking = append(blocking, norm(c.Src(st)))
+				}
+			}
+			return true
+		})
+	}
+	if fd := c.Func("mcp", "", "cancelCall"); fd != nil && fd.Body != nil {
+		for _, st := range fd.Body.List {
+			ccBody = append(ccBody, norm(c.Src(st)))
+		}
+	} else {
+		bad("mcp.cancelCall not found")
+	}
+	c.Fact("cancel.blocking_branch", map[string]any{"if_body": blocking, "cancelCall": ccBody})
+
 	// ---- the payload of the notice (cancel-F1: it inherits the per-request _meta of the request it cancels)
 	np := c.Func("mcp", "", "newCancelledParams")
 	c.Fact("cancel.notice_inherits_request_meta", has(np, "[]string{MetaKeyProtocolVersion, MetaKeyClientInfo, MetaKeyClientCapabilities}") &&
